@@ -105,11 +105,11 @@ Qed.
 Definition Qg (u0 : Z) (st : net) : Prop := u0 < una_off (net_get st x).
 
 Definition K1 (u0 dk T1 : Z) (fa : fair_aux) (st : net) : Prop :=
-  Gbase u0 dk fa st /\ u0 < rcv_off (net_get st y) /\ net_now st x <= T1 /\
+  Gbase u0 dk fa st /\ net_now st x <= T1 /\
   (forall e, s_timer (net_sock st x) = TRetransmit e -> e <= T1).
 
 Definition K2 (u0 dk T2 : Z) (fa : fair_aux) (st : net) : Prop :=
-  Gbase u0 dk fa st /\ u0 < rcv_off (net_get st y) /\
+  Gbase u0 dk fa st /\
   exists i p t, nth_error (chan_to st y) i = Some p /\ nth_error (fa_dl fa y) i = Some (Some t) /\
                 net_now st y <= t /\ t <= T2 /\
                 r_seq_number (snd p) = s_local_seq_no (net_sock st x) /\
@@ -121,10 +121,9 @@ Lemma K1_step u0 dk T1 fa st ev st' :
   (Qg u0 st' \/ K2 u0 dk (T1 + dk + Dt) (fa_after Dt Da fa ev st') st') \/
   K1 u0 dk T1 (fa_after Dt Da fa ev st') st'.
 Proof.
-  intros HDt (HR & _) (HR' & _) (HB & Hrc & Hclk & Htm) Hfe H.
+  intros HDt (HR & _) (HR' & _) (HB & Hclk & Htm) Hfe H.
   pose proof HB as (HN & Ho & Hsy & Hdk & Hu & Hl).
   destruct (gbase_step _ _ _ _ _ _ HR HR' HB Hfe H) as [HQ | (HB' & (Hseq & Hx) & Hmono & _)]; [left; left; exact HQ|].
-  assert (Hrc' : u0 < rcv_off (net_get st' y)) by lia.
   assert (Hclk' : net_now st' x <= T1).
   { rewrite (net_step_now _ _ _ x H). destruct ev; try lia.
     destruct Hfe as (Hd0 & Hperm). destruct (Z.eq_dec d 0) as [-> | Hnz]; [lia|].
@@ -137,12 +136,12 @@ Proof.
     destruct (tcp_poll_at (ep_cx (net_get st x)) (ep_sock (net_get st x))) as [[|t|]|err|]; try contradiction.
     destruct Hpa as (e & He & Hte). specialize (Htm e He). unfold net_now in *. lia. }
   destruct Hx as [Htc | (p & e1 & Hout & Hsq & Hsl & Hak & Ht1 & He1)].
-  - right. split; [exact HB'|]. split; [exact Hrc'|]. split; [exact Hclk'|].
+  - right. split; [exact HB'|]. split; [exact Hclk'|].
     intros e He. destruct Htc as [Htc | [Htc | Htc]].
     + apply Htm. rewrite <- Htc. exact He.
     + rewrite Htc in He. discriminate.
     + rewrite He in Htc. discriminate.
-  - left. right. split; [exact HB'|]. split; [exact Hrc'|].
+  - left. right. split; [exact HB'|].
     set (i := length (chan_to st y)).
     assert (Hlen' : chan_to st' y = chan_to st y ++ [p]) by (rewrite !(chan_y_is_out x); exact Hout).
     exists i, p, (net_now st' y + Dt).
@@ -259,21 +258,23 @@ Qed.
 (* ---------------------------------------------------------------------------------------- *)
 Lemma tracked_below u0 st i p st' :
   NI st -> safe3 st -> safe3 st' ->
-  una_off (net_get st x) = u0 -> u0 < rcv_off (net_get st y) ->
+  una_off (net_get st x) = u0 ->
   nth_error (chan_to st y) i = Some p ->
   r_seq_number (snd p) = s_local_seq_no (net_sock st x) ->
   0 < l_len (r_payload (snd p)) -> r_ack_number (snd p) <> None ->
   net_step st (NDeliver y i) = Ok st' ->
-  (exists q, chan_to st' x = chan_to st x ++ [q] /\ pure_ack_of (net_sock st' y) (Some q))
-  \/ (chan_to st' x = chan_to st x /\ tcp_ack_to_transmit (net_sock st' y) = true).
+  u0 < rcv_off (net_get st' y) /\
+  ((exists q, chan_to st' x = chan_to st x ++ [q] /\ pure_ack_of (net_sock st' y) (Some q))
+   \/ (chan_to st' x = chan_to st x /\ tcp_ack_to_transmit (net_sock st' y) = true)).
 Proof.
-  intros HN HS HS' Hu Hr Hn Hsq Hpl Hak H.
+  intros HN HS HS' Hu Hn Hsq Hpl Hak H.
   pose proof HS as (HR & HA). pose proof HS' as (HR' & HA').
   unfold net_step in H. fold (chan_to st y) in H. rewrite Hn in H.
   apply obind_ok in H. destruct H as (e' & He & H). inversion H; subst st'; clear H.
   assert (Ecx : forall st0, chan_to st0 x = ep_out (net_get st0 y)) by (intros; reflexivity).
   rewrite !Ecx. unfold net_sock. rewrite !net_get_set_same.
   destruct (ep_step_spec _ _ _ He) as (s' & out & tags & Hs & Hk & _ & Hout & _).
+  pose proof (ep_step_rcv_off _ (EvSegment (fst p) (wire_parse (snd p))) _ _ _ _ He Hs ltac:(discriminate)) as Hro.
   cbn [tcp_step] in Hs. apply obind_ok in Hs. destruct Hs as (((s1 & rp) & tg) & Hi & Hs).
   assert (E : s1 = s' /\ out = OReply rp) by (inversion Hs; auto). destruct E as (-> & ->).
   pose proof (nth_error_In _ _ Hn) as Hin.
@@ -300,9 +301,12 @@ Proof.
   assert (HW0 : 0 <= W <= p30) by lia.
   assert (Hk30 : 0 <= k <= p30) by (unfold TcpRecvWindow.p30; lia).
   destruct (process_data_below _ _ _ _ _ _ _ W k Hst Hrw Hwe HW0 Hseq Hk30 Hpl' Hc Ha Huy Htx31 Hi)
-    as (Sq & _ & _ & [(q & -> & Hp & _) | (-> & Hla & m & Hm & L)]).
-  - left. exists q. cbn [wire_out opt_list] in Hout. rewrite Hk. split; [exact Hout | exact Hp].
-  - right. cbn [wire_out opt_list] in Hout. rewrite app_nil_r in Hout. split; [exact Hout|].
+    as (Sq & _ & _ & [(q & -> & Hp & Hge & Hstrict) | (-> & Hla & m & Hm & L)]).
+  - split.
+    { rewrite Hro. destruct (Z.eq_dec k 0) as [Ek | Ek]; [specialize (Hstrict ltac:(lia) Ek) |]; unfold k in *; lia. }
+    left. exists q. cbn [wire_out opt_list] in Hout. rewrite Hk. split; [exact Hout | exact Hp].
+  - split; [rewrite Hro; unfold k in *; lia|].
+    right. cbn [wire_out opt_list] in Hout. rewrite app_nil_r in Hout. split; [exact Hout|].
     rewrite Hk.
     pose proof (rx_len_bounds _ HS) as B0. pose proof (rx_len_bounds _ HS') as B1.
     unfold net_sock in B0, B1. rewrite net_get_set_same, Hk in B1.
@@ -517,12 +521,11 @@ Lemma K2_step u0 dk T2 fa st ev st' :
    K4 u0 dk (T2 - dk + Dt) (fa_after Dt Da fa ev st') st') \/
   K2 u0 dk T2 (fa_after Dt Da fa ev st') st'.
 Proof.
-  intros HDt HDa HS HS' (HB & Hrc & i & p & t & Hn & Hdl & Hnow & HtT & Hsq & Hpl & Hak) Hfe H.
+  intros HDt HDa HS HS' (HB & i & p & t & Hn & Hdl & Hnow & HtT & Hsq & Hpl & Hak) Hfe H.
   pose proof HS as (HR & HA). pose proof HS' as (HR' & HA').
   pose proof HB as (HN & Ho & Hsy & Hdk & Hu & Hl).
   destruct (gbase_step _ _ _ _ _ _ HR HR' HB Hfe H) as [HQ | (HB' & (Hseq & _) & Hmono & Htl)]; [left; left; exact HQ|].
   pose proof HB' as (HN' & _ & _ & Hdk' & Hu' & _).
-  assert (Hrc' : u0 < rcv_off (net_get st' y)) by lia.
   destruct (match ev with NDeliver to j => if side_eqb to y then Nat.eqb j i else false | _ => false end) eqn:Htr.
   { (* the retransmission is delivered *)
     destruct ev; try discriminate. destruct (side_eqb to y) eqn:Es; [|discriminate].
@@ -530,7 +533,7 @@ Proof.
     assert (Hclk : net_now st' y = net_now st y) by (rewrite (net_step_now _ _ _ y H); lia).
     assert (Hclkx : net_now st' x = net_now st x) by (rewrite (net_step_now _ _ _ x H); lia).
     left. right.
-    destruct (tracked_below u0 st i p st' HN HS HS' Hu Hrc Hn Hsq Hpl Hak H) as [(q & Hch & Hp) | (Hch & Howed)].
+    destruct (tracked_below u0 st i p st' HN HS HS' Hu Hn Hsq Hpl Hak H) as (Hrc' & [(q & Hch & Hp) | (Hch & Howed)]).
     - right. apply (k4_enter u0 dk _ fa st _ st' q HDt HS' HB HB' Hfe H Hch).
       + destruct Hp as (_ & Hc & _). rewrite Hc. discriminate.
       + destruct (cross_ack u0 st' HR' Hu' Hrc') as (k & Hk1 & Hk2). exists k. split; [|exact Hk2].
@@ -543,7 +546,7 @@ Proof.
       + intros t0 Et. rewrite Et in Hdb. destruct Hdb as (d & Hd & Hle). rewrite Hd in Hdel.
         unfold net_now in *. lia.
       + intros _. lia. }
-  right. split; [exact HB'|]. split; [exact Hrc'|].
+  right. split; [exact HB'|].
   exists i, p, t.
   split; [apply (fair_step_nth fa st ev st' y i p Hfe H Hn)|].
   split.
@@ -690,26 +693,28 @@ Qed.
 (* ---------------------------------------------------------------------------------------- *)
 (* STEP 3                                                                                    *)
 (* ---------------------------------------------------------------------------------------- *)
-(* y has accepted octets that x has not seen acknowledged (the ACK was lost, or is still owed).
-   On every fair run on which the safety facts hold, before x's clock has advanced by more than
-   RTTE_MAX_RTO + 2 Dt + Dack the run passes through a state in which SND.UNA of x has advanced. *)
+(* x has unacknowledged octets - whether y has already accepted some of them (the ACK was lost, or
+   is still owed) or none.  On every fair run on which the safety facts hold, before x's clock has
+   advanced by more than RTTE_MAX_RTO + 2 Dt + Dack the run passes through a state in which SND.UNA
+   of x has advanced: retransmission from SND.UNA, delivery, acceptance of the new part or an
+   immediate ACK of RCV.NXT, the (possibly delayed) ACK, its delivery and acceptance. *)
 Theorem ack_eventually_advances_snd_una : forall evs fa st st' u0,
   0 <= Dt -> 0 <= Dack ->
   NI st -> opts_ok st -> dl_sync fa st ->
   run_all safe3 st evs -> fair_run Dt Da fa st evs -> net_run st evs = Ok st' ->
-  0 < txl x st -> una_off (net_get st x) = u0 -> u0 < rcv_off (net_get st y) ->
+  0 < txl x st -> una_off (net_get st x) = u0 ->
   net_now st x + max_rto_us + 2 * Dt + Dack < net_now st' x ->
   exists pre post st1, evs = pre ++ post /\ net_run st pre = Ok st1 /\ net_run st1 post = Ok st' /\
                        Qg u0 st1.
 Proof.
-  intros evs fa st st' u0 HDt HDk HN Ho Hsy HRun Hfair Hrun Hl Hu Hr Hlate.
+  intros evs fa st st' u0 HDt HDk HN Ho Hsy HRun Hfair Hrun Hl Hu Hlate.
   set (dk := net_now st y - net_now st x).
   set (T1 := net_now st x + max_rto_us).
   set (T4 := T1 + 2 * Dt + Dack).
   assert (Hdk' : net_now st' y - net_now st' x = dk) by (unfold dk; apply (net_run_skew2 _ _ _ y x Hrun)).
   assert (HK1 : K1 u0 dk T1 fa st).
   { split; [split; [exact HN|]; split; [exact Ho|]; split; [exact Hsy|]; split; [reflexivity|]; split; [exact Hu | exact Hl]|].
-    split; [exact Hr|]. split; [unfold T1; pose proof max_rto_us_pos; lia|].
+    split; [unfold T1; pose proof max_rto_us_pos; lia|].
     intros e He. destruct (HN x) as (_ & _ & (_ & Hb) & _). unfold net_sock in He. rewrite He in Hb. exact Hb. }
   (* the last phase, from any K4 with a deadline not after T4 *)
   assert (Hfin : forall post1 fa1 st1 T, T <= T4 -> K4 u0 dk T fa1 st1 -> run_all safe3 st1 post1 ->
@@ -726,7 +731,7 @@ Proof.
   (* phase 1 *)
   destruct (fair_leads_under Dt Da safe3 (K1 u0 dk T1)
               (fun fa st => Qg u0 st \/ K2 u0 dk (T1 + dk + Dt) fa st) x T1
-              ltac:(intros fa0 st0 (_ & _ & H0 & _); exact H0)
+              ltac:(intros fa0 st0 (_ & H0 & _); exact H0)
               ltac:(intros fa0 st0 ev0 st0' R0 R0' J0 F0 S0; exact (K1_step _ _ _ _ _ _ _ HDt R0 R0' J0 F0 S0))
               evs fa st st' HK1 HRun Hfair Hrun ltac:(unfold T1 in *; lia))
     as (pre & post & fa1 & st1 & -> & Hp1 & Hp2 & HR1 & Hf1 & [HQ | HK2]).
@@ -735,7 +740,7 @@ Proof.
   set (T2 := T1 + dk + Dt) in *.
   destruct (fair_leads_under Dt Da safe3 (K2 u0 dk T2)
               (fun fa st => Qg u0 st \/ K3 u0 dk (T2 + Dack) fa st \/ K4 u0 dk (T2 - dk + Dt) fa st) y T2
-              ltac:(intros fa0 st0 (_ & _ & i0 & p0 & t0 & _ & _ & A & B & _); lia)
+              ltac:(intros fa0 st0 (_ & i0 & p0 & t0 & _ & _ & A & B & _); lia)
               ltac:(intros fa0 st0 ev0 st0' R0 R0' J0 F0 S0; exact (K2_step _ _ _ _ _ _ _ HDt HDk R0 R0' J0 F0 S0))
               post fa1 st1 st' HK2 HR1 Hf1 Hp2 ltac:(unfold T2, T1 in *; lia))
     as (pre2 & post2 & fa2 & st2 & -> & Hq1 & Hq2 & HR2 & Hf2 & [HQ | [HK3 | HK4]]).
